@@ -431,15 +431,16 @@ def _c09():
     R("c09-converter-checks-vd", C, '        return ["vi", "vo", "ii", "io", "pi", "po", "pl", "tr", "tp"]', '        return ["vi", "vo", "vd", "ii", "io", "pi", "po", "pl", "tr", "tp"]', fires=["C09"])
     R("c09-iload-drops-tp", C, '        return ["vi", "pi", "tr", "tp"]', '        return ["vi", "pi", "tr"]', fires=["C09"])
     R("c09-default-tp-min-zero", C, '    "tp": [-MAX_DEFAULT, MAX_DEFAULT],  # peak temperature', '    "tp": [0.0, MAX_DEFAULT],  # peak temperature', fires=["C09"])
-    R("c09-silence-also-for-sources", C, "        if self._component_type not in [_ComponentTypes.SOURCE, _ComponentTypes.SLOSS]:\n            if phase_conf:", "        if self._component_type not in [_ComponentTypes.SLOSS]:\n            if phase_conf:", fires=["C09"])
+    R("c09-silence-also-for-sources", C, "            _ComponentTypes.SOURCE,\n            _ComponentTypes.SLOSS,\n            _ComponentTypes.RECTIFIER,\n        ]:\n            if phase_conf:",
+      "            _ComponentTypes.SLOSS,\n            _ComponentTypes.RECTIFIER,\n        ]:\n            if phase_conf:", fires=["C09"])
     R("c09-silence-when-listed", C, "                if phase not in phase_conf:\n                    return \"\"", "                if phase in phase_conf:\n                    return \"\"", fires=["C09"])
     R("c09-flag-keyed-by-component", S, "                if w != \"\":\n                    dwarns[dname] = 1", "                if w != \"\":\n                    dwarns[name] = 1", fires=["C09"])
     R("c09-total-all-instead-of-any", S, "            if any(warn):\n                warn += [\"Yes\"]", "            if all(warn):\n                warn += [\"Yes\"]", fires=["C09"])
     R("c09-warn-gets-other-operands", S, "                w = self._g[n]._solv_get_warns(vi, vo, ii, io, ta, ph, phase_config)", "                w = self._g[n]._solv_get_warns(vi, vo, ii, ii, ta, ph, phase_config)", fires=["C09"])
     R("c09-warn-phase-argument", S, "                w = self._g[n]._solv_get_warns(vi, vo, ii, io, ta, ph, phase_config)", "                w = self._g[n]._solv_get_warns(vi, vo, ii, io, ta, phase, phase_config)", fires=["C09", "C06"])
     R("eq-c09-compare-spelling", C, "            if abs(checks[key]) > abs(lim[1]) or abs(checks[key]) < abs(lim[0]):", "            if abs(lim[0]) > abs(checks[key]) or abs(lim[1]) < abs(checks[key]):", silent=["C09"])
-    R("eq-c09-silence-flattened", C, "        if self._component_type not in [_ComponentTypes.SOURCE, _ComponentTypes.SLOSS]:\n            if phase_conf:\n                if phase not in phase_conf:\n                    return \"\"",
-      "        if self._component_type != _ComponentTypes.SOURCE and self._component_type != _ComponentTypes.SLOSS and phase_conf and phase not in phase_conf:\n            return \"\"", silent=["C09"])
+    R("eq-c09-silence-flattened", C, "        if self._component_type not in [\n            _ComponentTypes.SOURCE,\n            _ComponentTypes.SLOSS,\n            _ComponentTypes.RECTIFIER,\n        ]:\n            if phase_conf:\n                if phase not in phase_conf:\n                    return \"\"",
+      "        if self._component_type != _ComponentTypes.SOURCE and self._component_type != _ComponentTypes.SLOSS and self._component_type != _ComponentTypes.RECTIFIER and phase_conf and phase not in phase_conf:\n            return \"\"", silent=["C09"])
 
 
 _c09()
@@ -739,12 +740,12 @@ def _c13():
     }
 
 ''', '', fires=["C13"])
-    R("c13-type-gate-after-store", C, '''            if type(pval) not in cls._cparams["params"][key]["typ"]:
+    R("c13-type-gate-after-store", C, '''            if type(pval) not in typ and not (dict in typ and isinstance(pval, dict)):
                 raise ValueError("Parameter {} is not of the correct type".format(key))
             fparams[key] = pval''', '''            fparams[key] = pval
-            if type(pval) not in cls._cparams["params"][key]["typ"]:
+            if type(pval) not in typ and not (dict in typ and isinstance(pval, dict)):
                 raise ValueError("Parameter {} is not of the correct type".format(key))''', silent=["C13"], note="the store goes to a local dict that is dropped when the type gate raises: no observable difference")
-    R("c13-type-gate-isinstance", C, '            if type(pval) not in cls._cparams["params"][key]["typ"]:', '            if not isinstance(pval, tuple(cls._cparams["params"][key]["typ"])):', fires=["C13"])
+    R("c13-type-gate-isinstance", C, '            if type(pval) not in typ and not (dict in typ and isinstance(pval, dict)):', '            if not isinstance(pval, tuple(typ)):', fires=["C13"])
     R("c13-mandatory-read-with-default", C, '                pval = _get_mand(config[cls._cparams["name"]], key)', '                pval = _get_opt(config[cls._cparams["name"]], key, None)', fires=["C13"])
     R("c13-linreg-vdrop-default", C, '        vd = _get_opt(config["linreg"], "vdrop", VDROP_DEFAULT)', '        vd = _get_opt(config["linreg"], "vdrop", 0.1)', fires=["C13"])
     R("c13-linreg-iis-from-iq", C, '        iis = _get_opt(config["linreg"], "iis", IIS_DEFAULT)', '        iis = _get_opt(config["linreg"], "iq", IIS_DEFAULT)', fires=["C13"])
